@@ -82,6 +82,12 @@ struct GenOptions {
   int max_block = 4000;   // upper bound on the size of ordinary generated blocks (bytes before the BWT)
   bool allow_big = false; // allow blocks up to level*100000 (capacity boundary cases need them)
   int defect = -1;        // -1: valid file; -2: defect chosen by the tape; >0: that defect
+  // symbol-level blocks (write_block_sym): 0 never, k > 0: about one block in k is built from a chosen sequence of
+  // prefix-coded symbols instead of a chosen BWT input.  Such blocks are decodable by every bzip2 decoder but their
+  // inverse BWT need not be a single cycle, so no encoder can produce them: they belong to the C05/C09/C10 domains
+  // (the reference decides), not to C06's.
+  int sym_blocks = 0;
+  int plant = 0;          // symbol-level blocks: 0 tape decides, 1 none, 2 magic+32 bits, 3 magic+junk, 4 magic+nested block
 };
 
 struct GenResult {
@@ -90,6 +96,7 @@ struct GenResult {
   int defect = 0;
   std::map<std::string, int> labels;
   std::string note;
+  bool sym_used = false;  // at least one symbol-level block (validity is then for the reference to decide)
 };
 
 // ------------------------------------------------------------------ helpers
@@ -694,6 +701,254 @@ inline void write_block(Emit &E, Tape &t, int level, const GenOptions &o, GenRes
   if (n_groups == 2) R.labels["tables_2"]++;
 }
 
+// ------------------------------------------------------------------ symbol-level block
+//
+// The block is defined by its sequence of prefix-coded symbols: chosen tables (so that chosen symbols have the longest
+// codes), runs of one long-coded symbol (groups of fifty 20-bit codes: the widest a group can be), random symbols, and
+// PLANTED BIT STRINGS: an arbitrary bit string is parsed into code words of the table in effect (a complete prefix code
+// parses every bit string), so the 48-bit block-header pattern -- followed by junk, by 32 arbitrary bits, or by a whole
+// nested block -- appears verbatim inside the coded data.  EOB has the all-ones code of maximal length so that a plant
+// does not end the block by accident.  The BWT output follows from the symbols, the primary index is chosen, and the
+// plaintext is whatever the format's decoding rules make of it.
+inline bool write_block_sym(Emit &E, Tape &t, int level, const GenOptions &o, GenResult &R, std::string &plain,
+                            const std::string &nested_bits) {
+  const uint32_t cap = (uint32_t)std::min(level * 100000, std::max(200, o.max_block));
+  static const int nus[] = {2, 3, 4, 20, 100, 254, 256, 20};
+  int n_in_use = nus[t.pick(8)];
+  std::vector<uint8_t> seq;
+  {
+    uint8_t base = (uint8_t)t.byte();
+    int stride = n_in_use == 256 ? 1 : 1 + t.pick(3) * 0;
+    for (int i = 0; i < n_in_use; i++) seq.push_back((uint8_t)(base + i * stride));
+    std::sort(seq.begin(), seq.end());
+  }
+  const int alpha = n_in_use + 2, EOB = n_in_use + 1;
+  int n_groups = 2 + t.pick(5);
+  // hot symbols: MTF indices that get the longest codes
+  std::vector<int> hot;
+  int nhot = 1 + t.pick(3);
+  for (int i = 0; i < nhot && (int)hot.size() < n_in_use - 1; i++) {
+    int h = 2 + t.pick(n_in_use - 1);
+    if (std::find(hot.begin(), hot.end(), h) == hot.end() && h < EOB) hot.push_back(h);
+  }
+  if (hot.empty()) hot.push_back(2);
+  std::vector<Codes> tabs(n_groups);
+  std::vector<detail::Canon> canon(n_groups);
+  for (int k = 0; k < n_groups; k++) {
+    int policy = t.pick(3);  // 0 balanced 1 spine 2 random
+    std::vector<int> shape = code_shape(alpha, policy, t);
+    std::vector<int> order;
+    for (int v = 0; v < alpha; v++)
+      if (v != EOB && std::find(hot.begin(), hot.end(), v) == hot.end()) order.push_back(v);
+    if (t.pick(2))
+      for (int i = (int)order.size() - 1; i > 0; i--) std::swap(order[i], order[t.pick(i + 1)]);
+    for (int h : hot) order.push_back(h);
+    order.push_back(EOB);
+    tabs[k].len.assign(alpha, 0);
+    for (int i = 0; i < alpha; i++) tabs[k].len[order[i]] = shape[i];
+    assign_codes(tabs[k]);
+    canon[k].build(tabs[k].len);
+    if (shape.back() == 20) R.labels["sym_code_len_20"]++;
+  }
+  // symbols
+  std::vector<uint16_t> syms;
+  std::vector<uint8_t> sel;
+  uint64_t size = 0, run = 0;
+  int run_bits = 0;
+  int sel_how = t.pick(3);
+  auto table_at = [&](size_t pos) -> int {
+    size_t g = pos / 50;
+    while (sel.size() <= g) sel.push_back((uint8_t)(sel_how == 0 ? 0 : sel_how == 1 ? sel.size() % n_groups : t.pick(n_groups)));
+    return sel[g];
+  };
+  auto push = [&](int v) -> bool {  // returns false when the block would exceed its limit
+    if (v < 2) {
+      if (run_bits >= 16) return false;
+      uint64_t add = (uint64_t)(v + 1) << run_bits;
+      if (size + run + add > cap) return false;
+      run += add;
+      run_bits++;
+    } else {
+      if (size + run + 1 > cap) return false;
+      size += run + 1;
+      run = 0;
+      run_bits = 0;
+    }
+    table_at(syms.size());
+    syms.push_back((uint16_t)v);
+    return true;
+  };
+  auto plant_bits = [&](const std::string &bits) {
+    // bits: string of '0'/'1'
+    size_t i = 0;
+    bool aborted = false;
+    while (i < bits.size() && !aborted) {
+      const detail::Canon &C = canon[table_at(syms.size())];
+      uint32_t code = 0;
+      int found = -1;
+      for (int l = 1; l <= 20; l++) {
+        int b = i < bits.size() ? bits[i] == '1' : 0;  // a code word cut off by the end of the plant is completed with 0s
+        i++;
+        code = (code << 1) | (uint32_t)b;
+        if (l >= C.minl && C.count[l] && code >= C.first_code[l] && code - C.first_code[l] < C.count[l]) {
+          found = C.perm[C.index[l] + (code - C.first_code[l])];
+          break;
+        }
+      }
+      if (found < 0 || found == EOB || !push(found)) aborted = true;
+    }
+    R.labels[aborted ? "plant_cut_short" : "plant_complete"]++;
+  };
+  int nseg = 1 + t.pick(6);
+  for (int sgi = 0; sgi < nseg; sgi++) {
+    int kind = t.pick(4);
+    if (kind == 0) {  // the widest groups: one long-coded symbol again and again
+      static const int reps[] = {50, 100, 150, 49, 51, 200, 400, 37};
+      int k = reps[t.pick(8)], h = hot[t.pick((uint32_t)hot.size())];
+      for (int i = 0; i < k; i++)
+        if (!push(h)) break;
+      R.labels["sym_hot_runs"]++;
+    } else if (kind == 1) {
+      int k = 1 + t.pick(300);
+      for (int i = 0; i < k; i++) {
+        int v = t.pick(8) == 0 ? (int)t.pick(2) : 2 + (int)t.pick(n_in_use - 1);
+        if (!push(v)) break;
+      }
+    } else if (kind == 2) {
+      int k = 1 + t.pick(60), v = 2 + (int)t.pick(n_in_use - 1);
+      for (int i = 0; i < k; i++)
+        if (!push(i % 2 ? v : 2)) break;
+    } else {
+      int what = o.plant ? o.plant : 1 + (int)t.pick(4);
+      std::string bits;
+      for (int i = 47; i >= 0; i--) bits.push_back(((0x314159265359ull >> i) & 1) ? '1' : '0');
+      if (what == 1)
+        bits.clear();
+      else if (what == 2)
+        for (int i = 0; i < 32; i++) bits.push_back(t.pick(2) ? '1' : '0');
+      else if (what == 3) {
+        int k = 40 + t.pick(400);
+        for (int i = 0; i < k; i++) bits.push_back(t.pick(2) ? '1' : '0');
+      } else
+        bits = nested_bits;  // starts with its own block magic
+      if (!bits.empty()) {
+        plant_bits(bits);
+        R.labels[what == 2 ? "plant_magic+32" : what == 3 ? "plant_magic+junk" : "plant_nested_block"]++;
+      }
+    }
+  }
+  if (syms.empty() || (size + run) == 0) push(2);
+  table_at(syms.size());
+  syms.push_back((uint16_t)EOB);
+  // BWT output from the symbols
+  std::vector<uint8_t> tt;
+  {
+    std::vector<uint8_t> m(n_in_use);
+    for (int i = 0; i < n_in_use; i++) m[i] = (uint8_t)i;
+    uint64_t r = 0;
+    int rb = 0;
+    auto flush = [&]() {
+      tt.insert(tt.end(), (size_t)r, seq[m[0]]);
+      r = 0;
+      rb = 0;
+    };
+    for (uint16_t v : syms) {
+      if (v == EOB) break;
+      if (v < 2) {
+        r += (uint64_t)(v + 1) << rb;
+        rb++;
+        continue;
+      }
+      flush();
+      int idx = v - 1;
+      uint8_t x = m[idx];
+      memmove(&m[1], &m[0], idx);
+      m[0] = x;
+      tt.push_back(seq[x]);
+    }
+    flush();
+  }
+  const uint32_t n = (uint32_t)tt.size();
+  if (n == 0) return false;
+  // primary index + decoding by the format's rule (n steps along the permutation)
+  std::string blk_plain;
+  uint32_t orig = 0;
+  bool ok = false;
+  for (int attempt = 0; attempt < 6 && !ok; attempt++) {
+    orig = t.pick(n);
+    std::vector<uint32_t> cf(257, 0), T2(n);
+    for (uint32_t i = 0; i < n; i++) cf[tt[i] + 1]++;
+    for (int i = 0; i < 256; i++) cf[i + 1] += cf[i];
+    for (uint32_t i = 0; i < n; i++) T2[cf[tt[i]]++] = i;
+    std::vector<uint8_t> pre(n);
+    uint32_t pp = T2[orig];
+    for (uint32_t i = 0; i < n; i++) {
+      pre[i] = tt[pp];
+      pp = T2[pp];
+    }
+    blk_plain.clear();
+    ok = unrle1(pre, blk_plain);
+  }
+  if (!ok) R.labels["sym_block_ends_in_run4(invalid)"]++;
+  Crc crc;
+  for (unsigned char c : blk_plain) crc.add(c);
+  uint32_t bcrc = crc.fin();
+  // emit
+  BitWriter &bw = E.bw;
+  bw.put(48, 0x314159265359ull);
+  bw.put(32, bcrc);
+  bw.put(1, 0);
+  bw.put(24, orig);
+  {
+    bool used[256] = {false};
+    for (uint8_t c : seq) used[c] = true;
+    uint32_t big = 0;
+    for (int i = 0; i < 16; i++)
+      for (int j = 0; j < 16; j++)
+        if (used[i * 16 + j]) big |= 0x8000u >> i;
+    bw.put(16, big);
+    for (int i = 0; i < 16; i++)
+      if (big & (0x8000u >> i)) {
+        uint32_t sm = 0;
+        for (int j = 0; j < 16; j++)
+          if (used[i * 16 + j]) sm |= 0x8000u >> j;
+        bw.put(16, sm);
+      }
+  }
+  bw.put(3, n_groups);
+  bw.put(15, (uint32_t)sel.size());
+  {
+    uint8_t pos[6] = {0, 1, 2, 3, 4, 5};
+    for (uint8_t sv : sel) {
+      int j = 0;
+      while (pos[j] != sv) j++;
+      for (int k = 0; k < j; k++) bw.put(1, 1);
+      bw.put(1, 0);
+      uint8_t v = pos[j];
+      for (; j > 0; j--) pos[j] = pos[j - 1];
+      pos[0] = v;
+    }
+  }
+  for (int k = 0; k < n_groups; k++) {
+    int cur = tabs[k].len[0];
+    bw.put(5, cur);
+    for (int i = 0; i < alpha; i++) {
+      while (cur < tabs[k].len[i]) bw.put(2, 2), cur++;
+      while (cur > tabs[k].len[i]) bw.put(2, 3), cur--;
+      bw.put(1, 0);
+    }
+  }
+  for (size_t i = 0; i < syms.size(); i++) {
+    const Codes &C = tabs[sel[i / 50]];
+    bw.put(C.len[syms[i]], C.code[syms[i]]);
+  }
+  E.comb = ((E.comb << 1) | (E.comb >> 31)) ^ bcrc;
+  plain += blk_plain;
+  R.labels["sym_blocks"]++;
+  R.sym_used = true;
+  return ok;
+}
+
 // ------------------------------------------------------------------ whole file
 
 inline GenResult generate(const uint8_t *tape, size_t len, const GenOptions &o) {
@@ -730,6 +985,22 @@ inline GenResult generate(const uint8_t *tape, size_t len, const GenOptions &o) 
     for (int b = 0; b < nblocks; b++) {
       BlockCtl ctl;
       if (b == dblock) ctl.defect = defect, planted = true;
+      if (o.sym_blocks > 0 && b != dblock && t.pick(o.sym_blocks) == 0) {
+        // a complete small block, to be planted inside the coded data of the symbol-level block
+        std::string nested;
+        {
+          Emit E2;
+          GenResult R2;
+          GenOptions o2 = o;
+          o2.max_block = 60;
+          o2.allow_big = false;
+          std::string p2;
+          write_block(E2, t, level, o2, R2, BlockCtl(), p2);
+          for (uint64_t i = 0; i < E2.bw.nbits; i++) nested.push_back((E2.bw.out[i >> 3] >> (7 - (i & 7))) & 1 ? '1' : '0');
+        }
+        write_block_sym(E, t, level, o, R, R.plain, nested);
+        continue;
+      }
       write_block(E, t, level, o, R, ctl, R.plain);
     }
     E.bw.put(48, (stream_defect && defect == D_EOS_MAGIC) ? 0x177245385091ull : 0x177245385090ull);
